@@ -69,6 +69,125 @@ fn v2_result(r: &Result<v2::Header<'_>, v2::ParseError>) -> String {
     }
 }
 
+
+fn off(base: &[u8], s: &[u8]) -> i64 {
+    (s.as_ptr() as i64) - (base.as_ptr() as i64)
+}
+
+/// Walk of a TLV section: `O<kind>:<offset of the value in the section>:<len>` / `L<n>` (Leftovers) /
+/// `I<type>:<len>` (InvalidTLV) / `E<debug>` (any other error), `,`-separated; then `;end` if `None` was returned twice in a row
+/// within n/3 + 4 calls, `;noend` otherwise.
+fn tlv_walk(section: &[u8], mut it: v2::TypeLengthValues<'_>) -> String {
+    let mut out: Vec<String> = Vec::new();
+    let budget = section.len() / 3 + 4;
+    let mut ended = false;
+    for _ in 0..budget {
+        match it.next() {
+            None => {
+                ended = it.next().is_none();
+                break;
+            }
+            Some(Ok(t)) => out.push(format!("O{}:{}:{}", t.kind, off(section, t.value.as_ref()), t.value.len())),
+            Some(Err(v2::ParseError::Leftovers(n))) => out.push(format!("L{}", n)),
+            Some(Err(v2::ParseError::InvalidTLV(t, l))) => out.push(format!("I{}:{}", t, l)),
+            Some(Err(e)) => out.push(format!("E{:?}", e)),
+        }
+    }
+    format!("{};{}", out.join(","), if ended { "end" } else { "noend" })
+}
+
+fn v2_addr_hex(a: &v2::Addresses) -> String {
+    let mut b: Vec<u8> = Vec::new();
+    match a {
+        v2::Addresses::Unspecified => {}
+        v2::Addresses::IPv4(x) => {
+            b.extend_from_slice(&x.source_address.octets());
+            b.extend_from_slice(&x.destination_address.octets());
+            b.extend_from_slice(&x.source_port.to_be_bytes());
+            b.extend_from_slice(&x.destination_port.to_be_bytes());
+        }
+        v2::Addresses::IPv6(x) => {
+            b.extend_from_slice(&x.source_address.octets());
+            b.extend_from_slice(&x.destination_address.octets());
+            b.extend_from_slice(&x.source_port.to_be_bytes());
+            b.extend_from_slice(&x.destination_port.to_be_bytes());
+        }
+        v2::Addresses::Unix(x) => {
+            b.extend_from_slice(&x.source);
+            b.extend_from_slice(&x.destination);
+        }
+    }
+    hex(&b)
+}
+
+/// Full canonical rendering of what the v2 parser and every view of the result do on one input.
+fn v2_full(input: &[u8]) -> String {
+    let r = v2::Header::try_from(input);
+    let flags = format!("inc={} comp={}", r.is_incomplete(), r.is_complete());
+    match &r {
+        Err(e) => {
+            let d = match e {
+                v2::ParseError::Incomplete(n) => format!("Incomplete({})", n),
+                v2::ParseError::Prefix => "Prefix".to_string(),
+                v2::ParseError::Version(v) => format!("Version({})", v),
+                v2::ParseError::Command(v) => format!("Command({})", v),
+                v2::ParseError::AddressFamily(v) => format!("AddressFamily({})", v),
+                v2::ParseError::Protocol(v) => format!("Protocol({})", v),
+                v2::ParseError::Partial(a, b) => format!("Partial({},{})", a, b),
+                v2::ParseError::InvalidAddresses(a, b) => format!("InvalidAddresses({},{})", a, b),
+                other => format!("{:?}", other),
+            };
+            format!("Err {} {}", d, flags)
+        }
+        Ok(h) => {
+            let cmd = match h.command { v2::Command::Local => 0, v2::Command::Proxy => 1 };
+            let tr = match h.protocol { v2::Protocol::Unspecified => 0, v2::Protocol::Stream => 1, v2::Protocol::Datagram => 2 };
+            let famn = |f: v2::AddressFamily| match f { v2::AddressFamily::Unspecified => 0, v2::AddressFamily::IPv4 => 1, v2::AddressFamily::IPv6 => 2, v2::AddressFamily::Unix => 3 };
+            let ver = match h.version { v2::Version::Two => 2 };
+            let hb: &[u8] = h.header.as_ref();
+            let ab = h.address_bytes();
+            let tb = h.tlv_bytes();
+            let tl = h.tlvs();
+            let o = h.to_owned();
+            let owned_ok = o == *h && *h == o && o.as_bytes() == h.as_bytes() && o.address_bytes() == h.address_bytes() && o.tlv_bytes() == h.tlv_bytes()
+                && o.length() == h.length() && o.len() == h.len() && o.address_family() == h.address_family();
+            format!(
+                "Ok hdr={}:{} ver={} cmd={} tr={} fam={} addr={} {} ab={}:{} tb={}:{} length={} len={} empty={} asb={}:{} afam={} alen={} aempty={} bl={} fu16={} tlvs={}:{} tlvslen={} tlvsempty={} vc={} afp={} owned={} walk={}",
+                off(input, hb), hb.len(), ver, cmd, tr, famn(h.address_family()), v2_addr_hex(&h.addresses), flags,
+                off(input, ab), ab.len(), off(input, tb), tb.len(), h.length(), h.len(), h.is_empty(), off(input, h.as_bytes()), h.as_bytes().len(),
+                famn(h.addresses.address_family()), h.addresses.len(), h.addresses.is_empty(),
+                h.address_family().byte_length().map(|x| x as i64).unwrap_or(-1), u16::from(h.address_family()),
+                off(input, tl.as_bytes()), tl.as_bytes().len(), tl.len(), tl.is_empty(),
+                h.version | h.command, h.protocol | h.address_family(), owned_ok, tlv_walk(tb, h.tlvs())
+            )
+        }
+    }
+}
+
+/// Re-encodes an accepted header four ways (C13) and says which reproduce it byte for byte.
+fn v2_rebuild(input: &[u8]) -> String {
+    use ppp::v2::Builder;
+    let h = match v2::Header::try_from(input) {
+        Ok(h) => h,
+        Err(e) => return format!("Err {:?}", e),
+    };
+    let want = h.as_bytes().to_vec();
+    let vc = input[12];
+    let afp = input[13];
+    let yes = |r: std::io::Result<Vec<u8>>| match r { Ok(v) => if v == want { "1" } else { "0" }, Err(_) => "E" };
+    let a = yes(Builder::new(vc, afp).write_payload(h.address_bytes()).and_then(|b| b.write_payload(h.tlv_bytes())).and_then(|b| b.build()));
+    let b = yes(Builder::new(vc, afp).write_payload(h.address_bytes()).and_then(|b| b.write_payload(h.tlvs())).and_then(|b| b.build()));
+    let c = if h.address_family() != v2::AddressFamily::Unspecified {
+        yes(Builder::with_addresses(h.version | h.command, h.protocol, h.addresses).write_payload(h.tlv_bytes()).and_then(|b| b.build()))
+    } else { "-" };
+    let items: Vec<_> = h.tlvs().collect();
+    let d = if items.iter().all(|x| x.is_ok()) && items.len() <= 100000 {
+        let tl: Vec<v2::TypeLengthValue<'_>> = items.into_iter().map(|x| x.unwrap()).collect();
+        yes(Builder::new(vc, afp).write_payload(h.address_bytes()).and_then(|b| b.write_payloads(tl)).and_then(|b| b.build()))
+    } else { "-" };
+    format!("rebuild a={} b={} c={} d={}", a, b, c, d)
+}
+
 fn handle(entry: &str, bytes: &[u8]) -> String {
     match entry {
         "v1_str" | "v1_fromstr_addresses" | "v1_fromstr_header" | "v1_views" => {
@@ -100,6 +219,12 @@ fn handle(entry: &str, bytes: &[u8]) -> String {
         }
         "v1_bytes" => v1b_result(&v1::Header::try_from(bytes)),
         "v2" => v2_result(&v2::Header::try_from(bytes)),
+        "v2x" => v2_full(bytes),
+        "v2rb" => v2_rebuild(bytes),
+        "tlvx" => {
+            let t = v2::TypeLengthValues::from(bytes);
+            format!("tlvs={}:{} tlvslen={} tlvsempty={} walk={}", off(bytes, t.as_bytes()), t.as_bytes().len(), t.len(), t.is_empty(), tlv_walk(bytes, t))
+        }
         "auto" => {
             let r = HeaderResult::parse(bytes);
             match &r {
@@ -134,6 +259,7 @@ fn handle(entry: &str, bytes: &[u8]) -> String {
             format!("fmt={} len={} roundtrip={}", hex(text.as_bytes()), text.len(), r1 && r2 && r3 && r4)
         }
         "v2_builder" => builder_history(&String::from_utf8_lossy(bytes)),
+        "v2_write_to" => write_to_case(&String::from_utf8_lossy(bytes)),
         "ip4" => match std::str::from_utf8(bytes).ok().and_then(|s| s.parse::<std::net::Ipv4Addr>().ok()) {
             Some(a) => format!("Ok {}", u32::from(a)),
             None => "Err".into(),
@@ -144,6 +270,79 @@ fn handle(entry: &str, bytes: &[u8]) -> String {
         },
         _ => "UnknownEntry".into(),
     }
+}
+
+
+/// Replays one `write_to` / `to_bytes` call of a WriteToHeader impl (C20) against an independent expectation.
+/// spec: `<case>;name=value;...` as produced by mirsym/props_b.py::c20_write_to
+fn write_to_case(spec: &str) -> String {
+    use ppp::v2::{Addresses, IPv4, IPv6, Type, TypeLengthValue, TypeLengthValues, Unix, WriteToHeader, Writer};
+    use std::collections::HashMap;
+    let mut parts = spec.split(';');
+    let case = parts.next().unwrap_or("");
+    let kv: HashMap<&str, &str> = parts.filter_map(|p| p.split_once('=')).collect();
+    let num = |k: &str| -> i128 { kv.get(k).and_then(|v| v.trim_matches(|c| c == '(' || c == ')').replace("- ", "-").replace(' ', "").parse::<i128>().ok()).unwrap_or(0) };
+    let fill = |n: usize, salt: usize| -> Vec<u8> { (0..n).map(|i| ((i + salt) % 251) as u8).collect() };
+    let p = num("qn_pre").max(0) as usize;
+    let prefix = fill(p, 7);
+    let types = [("ALPN", Type::ALPN, 0x01u8), ("Authority", Type::Authority, 0x02), ("CRC32C", Type::CRC32C, 0x03), ("NoOp", Type::NoOp, 0x04), ("UniqueId", Type::UniqueId, 0x05),
+        ("SSL", Type::SSL, 0x20), ("SSLVersion", Type::SSLVersion, 0x21), ("SSLCommonName", Type::SSLCommonName, 0x22), ("SSLCipher", Type::SSLCipher, 0x23),
+        ("SSLSignatureAlgorithm", Type::SSLSignatureAlgorithm, 0x24), ("SSLKeyAlgorithm", Type::SSLKeyAlgorithm, 0x25), ("NetworkNamespace", Type::NetworkNamespace, 0x30)];
+    let variant = kv.get("variant").copied().unwrap_or("NoOp");
+    let (ty, code) = types.iter().find(|t| t.0 == variant).map(|t| (t.1, t.2)).unwrap_or((Type::NoOp, 4));
+    // (expected encoding, oversize, fixed-size part, result of write_to on the prefixed writer, result of to_bytes)
+    fn run<T: WriteToHeader + ?Sized>(v: &T, prefix: &[u8]) -> (std::io::Result<usize>, Vec<u8>, std::io::Result<Vec<u8>>) {
+        let mut w = Writer::from(prefix.to_vec());
+        let r = v.write_to(&mut w);
+        (r, w.finish(), v.to_bytes())
+    }
+    let (enc, over, fixed, (r, after, tb)): (Vec<u8>, bool, usize, (std::io::Result<usize>, Vec<u8>, std::io::Result<Vec<u8>>)) = match case {
+        c if c.starts_with("int_") => {
+            macro_rules! int { ($t:ty) => {{ let x = num(&format!("x_{}", stringify!($t))) as $t; (x.to_be_bytes().to_vec(), false, std::mem::size_of::<$t>(), run(&x, &prefix)) }} }
+            match &c[4..] { "u8" => int!(u8), "u16" => int!(u16), "u32" => int!(u32), "u64" => int!(u64), "u128" => { let x = num("x_u128") as u128; (x.to_be_bytes().to_vec(), false, 16, run(&x, &prefix)) }, "usize" => int!(usize),
+                "i8" => int!(i8), "i16" => int!(i16), "i32" => int!(i32), "i64" => int!(i64), "i128" => int!(i128), _ => int!(isize) }
+        }
+        "type" => (vec![code], false, 1, run(&ty, &prefix)),
+        "addresses" => {
+            let k = num("family");
+            match k {
+                1 => { let o: Vec<u8> = (0..12).map(|i| num(&format!("ao1_{}", i)) as u8).collect();
+                    let a = Addresses::IPv4(IPv4::new([o[0], o[1], o[2], o[3]], [o[4], o[5], o[6], o[7]], u16::from_be_bytes([o[8], o[9]]), u16::from_be_bytes([o[10], o[11]])));
+                    (o, false, 12, run(&a, &prefix)) }
+                2 => { let o: Vec<u8> = (0..36).map(|i| num(&format!("ao2_{}", i)) as u8).collect();
+                    let mut s = [0u8; 16]; s.copy_from_slice(&o[0..16]); let mut d = [0u8; 16]; d.copy_from_slice(&o[16..32]);
+                    let a = Addresses::IPv6(IPv6::new(s, d, u16::from_be_bytes([o[32], o[33]]), u16::from_be_bytes([o[34], o[35]])));
+                    (o, false, 36, run(&a, &prefix)) }
+                3 => { let mut s = [0x41u8; 108]; let mut d = [0x42u8; 108];
+                    s[0] = num("ux0") as u8; s[53] = num("ux1") as u8; s[107] = num("ux2") as u8; d[0] = num("ux3") as u8; d[54] = num("ux4") as u8; d[107] = num("ux5") as u8;
+                    let mut e = s.to_vec(); e.extend_from_slice(&d);
+                    (e, false, 216, run(&Addresses::Unix(Unix::new(s, d)), &prefix)) }
+                _ => (vec![], false, 0, run(&Addresses::Unspecified, &prefix)),
+            }
+        }
+        "tlv" | "pair_u8" | "pair_type" => {
+            let n = num("qn_tlv").max(0) as usize;
+            let v = fill(n, 3);
+            let kind = if case == "pair_type" { code } else { num("tk") as u8 };
+            let mut e = vec![kind, (n >> 8) as u8, n as u8];
+            e.extend_from_slice(&v);
+            let res = match case { "tlv" => run(&TypeLengthValue::new(kind, &v), &prefix), "pair_u8" => run(&(kind, v.as_slice()), &prefix), _ => run(&(ty, v.as_slice()), &prefix) };
+            (e, n > 65535, 3, res)
+        }
+        "section" => { let n = num("qn_sec").max(0) as usize; let v = fill(n, 5); let r = run(&TypeLengthValues::from(v.as_slice()), &prefix); (v, false, 0, r) }
+        "slice" => { let n = num("qn_sl").max(0) as usize; let v = fill(n, 9); let r = run(v.as_slice(), &prefix); (v, n > 65535, 0, r) }
+        "ref_slice" => { let n = num("qn_sl").max(0) as usize; let v = fill(n, 9); let r = run(&v.as_slice(), &prefix); (v, n > 65535, 0, r) }
+        _ => return "write_to bad-spec".into(),
+    };
+    let limit = 65535 + 16;
+    let mut want = prefix.clone();
+    want.extend_from_slice(&enc);
+    let ok_w = match &r {
+        Ok(n) => !over && *n == enc.len() && after == want,
+        Err(_) => (over && after == prefix) || (!over && p + fixed > limit),
+    };
+    let ok_t = match &tb { Ok(b) => !over && *b == enc, Err(_) => over };
+    format!("write_to ok={} case={} prefix={} enc={} write={:?} to_bytes_ok={}", ok_w && ok_t, case, p, enc.len(), r.as_ref().map_err(|_| "err"), ok_t)
 }
 
 /// Replays a builder call history against the real Builder and an independent ghost.
